@@ -13,7 +13,9 @@ func init() {
 			streamHistories(c, HistCfg{Ops: 20, QueriesPer: 5, Indexes: false, Dumps: false, Malformed: false}, "results")
 		}
 	}
-	streams["C06"] = func(c *Ctx) { streamHistories(c, HistCfg{Ops: 30, QueriesPer: 1, Indexes: true, Dumps: true, Malformed: true}, "dumps") }
+	streams["C06"] = func(c *Ctx) {
+		streamHistories(c, HistCfg{Ops: 30, QueriesPer: 1, Indexes: true, Dumps: true, Malformed: true}, "dumps")
+	}
 }
 
 var backendsAll = []string{"bbolt", "badger-mem"}
